@@ -668,6 +668,154 @@ def readBasisFitsOld (file : FitsFile) : Except Err ModeBasis :=
     ModeBasis.fromDict (file.tree.set .tm (.arr m.transposeAll)) (fitsNative img.dtype)
   | none => ModeBasis.fromDict file.tree true
 
+/-! ## dtypes: kind, item size, byte order, and what each route does with them
+
+Until round 5 a dtype was the opaque tag of `Arr.dtype` and `fitsDtypeOk` a table.  Here a dtype is
+NumPy's triple; `fitsCard` is astropy's choice of `BITPIX` / `BZERO` for an image HDU (signed 8 bit
+and the unsigned types are stored with an offset), and `readDType` is the dtype of the values read
+back through each route.  `fitsDtypeOk` is proved to be `fitsCard` succeeding. -/
+
+inductive DKind where
+  | bool | int | uint | float | complex
+deriving DecidableEq, Repr
+
+/-- NumPy's byte-order character: `<`, `>`, `|` (single byte: not applicable) -/
+inductive BOrder where
+  | little | big | na
+deriving DecidableEq, Repr
+
+structure DType where
+  kind : DKind
+  size : Nat
+  order : BOrder
+deriving DecidableEq, Repr
+
+/-- the dtypes NumPy has for these kinds (bool; 8–64 bit integers; float16/32/64; complex64/128);
+single-byte types have no byte order, every other type has one -/
+def DType.wellFormed (d : DType) : Bool :=
+  (match d.kind with
+   | .bool => d.size == 1
+   | .int | .uint => d.size == 1 || d.size == 2 || d.size == 4 || d.size == 8
+   | .float => d.size == 2 || d.size == 4 || d.size == 8
+   | .complex => d.size == 8 || d.size == 16) &&
+  ((d.order == .na) == (d.size == 1))
+
+def DKind.char : DKind → String
+  | .bool => "b" | .int => "i" | .uint => "u" | .float => "f" | .complex => "c"
+
+def BOrder.char : BOrder → String
+  | .little => "<" | .big => ">" | .na => "|"
+
+/-- the byte-order-free tag carried by `Arr.dtype` (`"f8"`, `"u2"`, `"b1"`, `"c16"`) -/
+def DType.tag (d : DType) : String := d.kind.char ++ toString d.size
+
+/-- NumPy's `dtype.str` (`"<f8"`, `"|u1"`) -/
+def DType.str (d : DType) : String := d.order.char ++ d.tag
+
+def DType.parse? (s : String) : Option DType :=
+  match s.toList with
+  | o :: k :: digits =>
+    match (match o with | '<' => some BOrder.little | '>' => some .big | '|' => some .na | _ => none),
+          (match k with | 'b' => some DKind.bool | 'i' => some .int | 'u' => some .uint | 'f' => some .float
+                        | 'c' => some .complex | _ => none),
+          (String.ofList digits).toNat? with
+    | some o, some k, some n => some ⟨k, n, o⟩
+    | _, _, _ => none
+  | _ => none
+
+/-- the machine is little endian (x86-64 / aarch64): `=` is `<`, single bytes stay `|` -/
+def DType.native (d : DType) : DType := { d with order := if d.size = 1 then .na else .little }
+
+/-- the integers a dtype can hold (floats and complex numbers are not restricted here: the model
+carries their values as exact rationals) -/
+def DType.holds (d : DType) (v : Int) : Bool :=
+  match d.kind with
+  | .bool => v == 0 || v == 1
+  | .int => decide (-(2 ^ (8 * d.size - 1) : Int) ≤ v) && decide (v < (2 ^ (8 * d.size - 1) : Int))
+  | .uint => decide (0 ≤ v) && decide (v < (2 ^ (8 * d.size) : Int))
+  | .float | .complex => true
+
+/-- the header cards of a FITS image HDU that decide how pixels are stored -/
+structure FitsCard where
+  bitpix : Int
+  /-- `BZERO` (0 = the card is absent) -/
+  bzero : Int
+deriving DecidableEq, Repr
+
+/-- `astropy.io.fits.ImageHDU(array)`: `BITPIX` from the dtype (`DTYPE2BITPIX[dtype.name]`, a
+`KeyError` for `bool`, `float16`, `complex64/128`), signed bytes and unsigned 16/32/64 bit integers as
+the signed / unsigned storage type of the same width with `BZERO = ∓2^(bits-1)`.  Byte order plays no
+role: the file is big endian. -/
+def fitsCard (d : DType) : Except Err FitsCard :=
+  match d.kind, d.size with
+  | .uint, 1 => .ok ⟨8, 0⟩
+  | .int, 1 => .ok ⟨8, -128⟩
+  | .int, 2 => .ok ⟨16, 0⟩
+  | .int, 4 => .ok ⟨32, 0⟩
+  | .int, 8 => .ok ⟨64, 0⟩
+  | .uint, 2 => .ok ⟨16, 32768⟩
+  | .uint, 4 => .ok ⟨32, 2147483648⟩
+  | .uint, 8 => .ok ⟨64, 9223372036854775808⟩
+  | .float, 4 => .ok ⟨-32, 0⟩
+  | .float, 8 => .ok ⟨-64, 0⟩
+  | _, _ => .error .key
+
+/-- the number written to the file for the pixel value `v`, and back -/
+def FitsCard.store (c : FitsCard) (v : Rat) : Rat := v - c.bzero
+def FitsCard.load (c : FitsCard) (s : Rat) : Rat := s + c.bzero
+
+/-- does the stored integer fit the storage type of the file (`BITPIX = 8`: unsigned byte;
+16/32/64: two's complement; negative `BITPIX`: IEEE floats, not restricted here) -/
+def FitsCard.fits (c : FitsCard) (s : Int) : Bool :=
+  if c.bitpix = 8 then decide (0 ≤ s) && decide (s < 256)
+  else if 0 < c.bitpix then
+    decide (-(2 ^ (c.bitpix.toNat - 1) : Int) ≤ s) && decide (s < (2 ^ (c.bitpix.toNat - 1) : Int))
+  else true
+
+/-- the ways values travel -/
+inductive Route where
+  /-- `from_dict(to_dict(x))` -/
+  | dict
+  /-- an asdf file (arrays keep dtype and byte order) -/
+  | asdf
+  /-- `pickle` of a `Field` (`__getstate__` / `__setstate__`) -/
+  | pickle
+  /-- `pickle` of a `ModeBasis` or `Grid` (default pickling: the object's `__dict__`) -/
+  | pickleObject
+  /-- the same with pickle protocol 5: NumPy hands the buffer over with its dtype, byte order included -/
+  | pickleObject5
+  /-- FITS file, values inside the embedded ASDF tree (non-separated grids) -/
+  | fitsTree
+  /-- FITS file, `Field` values as the image HDU -/
+  | fitsImageField
+  /-- FITS file, mode-basis matrix as the image HDU (`read_mode_basis` converts to native order, D14) -/
+  | fitsImageBasis
+deriving DecidableEq, Repr
+
+/-- the dtype astropy hands back for an image HDU: single bytes as they are, `BZERO`-scaled unsigned
+integers as a freshly computed native array, everything else as the big-endian file content -/
+def fitsImageDType (d : DType) : Except Err DType := do
+  let c ← fitsCard d
+  .ok (if d.size = 1 then { d with order := .na }
+       else if c.bzero ≠ 0 then d.native else { d with order := .big })
+
+/-- **the dtype of the values read back** through each route, or the refusal of the write.
+Pickles (a `Field` through `__setstate__`, the arrays inside a pickled `ModeBasis`) come back in native
+byte order: that is what NumPy's array pickling does on the NumPy under test (observed, tied). -/
+def readDType (r : Route) (d : DType) : Except Err DType :=
+  match r with
+  | .dict | .asdf | .fitsTree | .pickleObject5 => .ok d
+  | .pickle | .pickleObject => .ok d.native
+  | .fitsImageField => fitsImageDType d
+  | .fitsImageBasis => (fitsImageDType d).map DType.native
+
+/-- every well-formed dtype (for the finite statements) -/
+def DType.all : List DType :=
+  [⟨.bool, 1, .na⟩, ⟨.int, 1, .na⟩, ⟨.uint, 1, .na⟩] ++
+  ([BOrder.little, BOrder.big].flatMap fun o =>
+    [⟨.int, 2, o⟩, ⟨.int, 4, o⟩, ⟨.int, 8, o⟩, ⟨.uint, 2, o⟩, ⟨.uint, 4, o⟩, ⟨.uint, 8, o⟩,
+     ⟨.float, 2, o⟩, ⟨.float, 4, o⟩, ⟨.float, 8, o⟩, ⟨.complex, 8, o⟩, ⟨.complex, 16, o⟩])
+
 /-! ## the ASDF layer (asdf files, and the ASDF table embedded in FITS files)
 
 The ASDF library is a parameter: `lib.load t` is the tree that `asdf.open(file).tree[key]` hands
